@@ -250,8 +250,12 @@ TypeOK == /\ vec.kind \in {"class", "pair", "prov"}
           /\ IsTrace(vec.t) /\ IsTrace(vec.u)
           /\ out.evaluated \in BOOLEAN
 
+\* Eval leaves the vector unchanged, so the properties of the vector are evaluated on
+\* the initial state of each vector only
+Fresh == ~out.evaluated
+
 \* the normal form is in the class of its trace and is a fixed point
-NFSound == vec.kind \in {"class", "prov"} =>
+NFSound == (Fresh /\ vec.kind \in {"class", "prov"}) =>
              /\ AKey(vec.cfg, vec.u) = AKey(vec.cfg, vec.t)
              /\ NF(vec.cfg, vec.u) = vec.u
              /\ Separable(vec.cfg, vec.u) <=> Separable(vec.cfg, vec.t)
@@ -261,27 +265,27 @@ Perms(n) == {p \in [1..n -> 1..n] : \A i, j \in 1..n : p[i] = p[j] => i = j}
 Permute(t, p) == [spans |-> [i \in 1..Len(t.spans) |-> t.spans[p[i]]],
                   root |-> IF t.root = 0 THEN 0 ELSE CHOOSE i \in 1..Len(t.spans) : p[i] = t.root]
 PermutationInvariant ==
-  vec.kind = "class" =>
+  (Fresh /\ vec.kind = "class") =>
      \A p \in Perms(Len(vec.t.spans)) : AKey(vec.cfg, Permute(vec.t, p)) = AKey(vec.cfg, vec.t)
 
 \* C11: duplicating a span changes the abstract key exactly when the span count is part of it
 Duplicate(t, i) == [spans |-> Append(t.spans, t.spans[i]), root |-> t.root]
 DuplicationInvariant ==
-  vec.kind = "class" =>
+  (Fresh /\ vec.kind = "class") =>
      \A i \in 1..Len(vec.t.spans) :
         (AKey(vec.cfg, Duplicate(vec.t, i)) = AKey(vec.cfg, vec.t)) <=> ~vec.cfg.utl
 
 \* C11: fields that are not configured, and root-only fields of other spans, do not matter
 Overwrite(t, i, f, v) == [t EXCEPT !.spans[i][f] = v]
 IrrelevantCellsInvariant ==
-  vec.kind = "class" =>
+  (Fresh /\ vec.kind = "class") =>
      \A i \in 1..Len(vec.t.spans), f \in DataFields, v \in Vals \cup {NoVal} :
         (f \notin vec.cfg.plain /\ (f \notin vec.cfg.root \/ i # vec.t.root))
            => AKey(vec.cfg, Overwrite(vec.t, i, f, v)) = AKey(vec.cfg, vec.t)
 
 \* pair vectors really are different separable classes
 PairsDistinct ==
-  vec.kind = "pair" =>
+  (Fresh /\ vec.kind = "pair") =>
      /\ AKey(vec.cfg, vec.t) # AKey(vec.cfg, vec.u)
      /\ Separable(vec.cfg, vec.t) /\ Separable(vec.cfg, vec.u)
 
@@ -290,7 +294,7 @@ PairsDistinct ==
 \* map-built payload memoizes all of it; after the decision-time MemoizeFields every
 \* decision-time key field is memoized or (rightly) missing ...
 PayloadSound ==
-  \A i \in 1..Len(vec.t.spans), decided \in BOOLEAN :
+  Fresh => \A i \in 1..Len(vec.t.spans), decided \in BOOLEAN :
      LET s == vec.t.spans[i]
          pl == PayloadOf(vec.cfg, vec.t, vec.prov, i, decided)
      IN /\ pl.missing \cap Present(s) = {}
@@ -301,13 +305,13 @@ PayloadSound ==
 \* key-field set was in force at ingest time, and the abstract key is a function of
 \* the trace's field values under the decision-time field list only
 ProvenanceInvariant ==
-  \A decided \in BOOLEAN :
+  Fresh => \A decided \in BOOLEAN :
      /\ Seen(vec.cfg, vec.t, vec.prov, decided) = vec.t
      /\ AKey(vec.cfg, Seen(vec.cfg, vec.t, vec.prov, decided)) = AKey(vec.cfg, vec.t)
 \* the same for every other provenance assignment of this trace, not only the enumerated
 \* ones (evaluated once per (field list, trace): on the vector whose spans are all map-built)
 AnyProvenanceInvariant ==
-  (vec.kind = "prov" /\ ~out.evaluated /\ ProvMix # "all" /\ vec.prov = PairProv(vec.t)) =>
+  (Fresh /\ vec.kind = "prov" /\ ProvMix # "all" /\ vec.prov = PairProv(vec.t)) =>
      \A q \in [1..Len(vec.t.spans) -> Provs], decided \in BOOLEAN :
         AKey(vec.cfg, Seen(vec.cfg, vec.t, q, decided)) = AKey(vec.cfg, vec.t)
 
